@@ -277,6 +277,8 @@ pub struct Ev<'a> {
     pub max_depth: usize,
     /// evaluate the body of this (otherwise summarised) function at call depth 0
     pub open_at_top: std::cell::RefCell<Option<String>>,
+    /// elements of summarised collections whose struct type owns a Vec: spell the element out with that Vec unrolled to n
+    pub inner_unroll: Option<usize>,
 }
 
 fn then(outs: Outs, mut f: impl FnMut(St, Val) -> Outs) -> Outs {
@@ -296,7 +298,7 @@ fn path_str(p: &syn::Path) -> Vec<String> {
 
 impl<'a> Ev<'a> {
     pub fn new(ix: &'a Index) -> Self {
-        Ev { ix, cur_file: Default::default(), unsupported: Default::default(), push_fns: vec![], stops: vec![], max_depth: 12, open_at_top: Default::default() }
+        Ev { ix, cur_file: Default::default(), unsupported: Default::default(), push_fns: vec![], stops: vec![], max_depth: 12, open_at_top: Default::default(), inner_unroll: None }
     }
     fn site(&self, sp: proc_macro2::Span) -> String {
         format!("{}:{}", self.cur_file.borrow(), sp.start().line)
@@ -380,13 +382,20 @@ impl<'a> Ev<'a> {
             self.unsup(&format!("call depth exceeded at {}", f.qual), f.sig.ident.span());
             return vec![];
         }
+        if self.push_fns.iter().any(|n| n == &f.qual) {
+            let place = args.first().map(|a| a.short()).unwrap_or_default();
+            let site = format!("{}:{}", f.file, f.line);
+            let recv = self_val.as_ref().map(|v| self.deref(&st, v).short()).unwrap_or_default();
+            st.events.push(Event::Push { place, site, func: f.qual.clone(), recv });
+        }
         let opened = st.depth == 0 && self.open_at_top.borrow().as_deref() == Some(f.qual.as_str());
         if let Some((_, kind)) = self.stops.iter().find(|(n, _)| n == &f.qual && !opened) {
             let name = format!("{}({})", f.sig.ident, args.iter().map(|a| a.short()).collect::<Vec<_>>().join(","));
             let v = if *kind == "atom" { Val::Atom(F::A(name)) } else if *kind == "ret" {
                 let mut ty = match &f.sig.output { syn::ReturnType::Type(_, t) => Ty::from_syn(t), _ => Ty::Unknown };
                 if let Some(t) = &f.self_ty { ty = ty.subst_self(t); }
-                Val::Sym { ty, path: format!("{}#", f.qual) }
+                let a: Vec<String> = args.iter().map(|x| x.short().trim_start_matches('$').to_string()).collect();
+                Val::Sym { ty, path: if a.is_empty() || a.iter().any(|x| x.len() > 40) { format!("{}#", f.qual) } else { format!("{}#({})", f.qual, a.join(",")) } }
             } else {
                 let mut deps = Vec::new();
                 if let Some(sv) = &self_val { deps.push(self.deref(&st, sv)); }
@@ -394,12 +403,6 @@ impl<'a> Ev<'a> {
                 Val::opaque(f.sig.ident.to_string(), deps)
             };
             return vec![(st, Flow::Val(v))];
-        }
-        if self.push_fns.iter().any(|n| n == &f.qual) {
-            let place = args.first().map(|a| a.short()).unwrap_or_default();
-            let site = format!("{}:{}", f.file, f.line);
-            let recv = self_val.as_ref().map(|v| self.deref(&st, v).short()).unwrap_or_default();
-            st.events.push(Event::Push { place, site, func: f.qual.clone(), recv });
         }
         let saved_env = std::mem::replace(&mut st.env, vec![HashMap::new()]);
         let saved_self = std::mem::replace(&mut st.self_ty, f.self_ty.clone());
@@ -1126,8 +1129,19 @@ impl<'a> Ev<'a> {
                     self.unsup("deref-assign target", left.span());
                 }
             }
-            syn::Expr::Field(_) => {
+            syn::Expr::Field(fe) => {
                 st.events.push(Event::Note(format!("field-assign {}", left.to_token_stream())));
+                // `local.field = v` on a struct value held by a local variable
+                if let syn::Expr::Path(p) = &*fe.base {
+                    if let Some(id) = p.path.get_ident() {
+                        let n = id.to_string();
+                        if let Some(Val::Struct { name, mut fields }) = st.lookup(&n) {
+                            let m = fe.member.to_token_stream().to_string();
+                            if let Some(slot) = fields.iter_mut().find(|(fname, _)| *fname == m) { slot.1 = v; } else { fields.push((m, v)); }
+                            st.assign(&n, Val::Struct { name, fields });
+                        }
+                    }
+                }
             }
             _ => self.unsup("assignment target", left.span()),
         }
@@ -1321,9 +1335,12 @@ impl<'a> Ev<'a> {
                         match fl {
                             Flow::Val(_) => {
                                 s2.env.push(HashMap::new());
+                                let label = match v { Val::Sym { path, .. } => Some(path.clone()), Val::Tuple(t) => t.iter().find_map(|x| if let Val::Sym { path, .. } = x { Some(path.clone()) } else { None }), _ => None };
+                                if let Some(l) = &label { s2.events.push(Event::Note(format!("iter-begin {l}"))); }
                                 self.bind_pat_irrefutable(&mut s2, &f.pat, v.clone());
                                 for (mut s3, fl2) in self.eval_block(s2, &f.body) {
                                     s3.env.pop();
+                                    if let Some(l) = &label { s3.events.push(Event::Note(format!("iter-end {l}"))); }
                                     match fl2 {
                                         Flow::Val(_) | Flow::Cont => next.push((s3, Flow::Val(Val::Unit))),
                                         Flow::Brk => next.push((s3, Flow::Brk)),
@@ -1449,6 +1466,8 @@ impl<'a> Ev<'a> {
                     r.extend(self.call_fn(s, &f, None, vs));
                     continue;
                 }
+                let mut s = s;
+                s.events.push(Event::Note(format!("extcall {}({})", segs[0], vs.iter().map(|a| a.short().chars().take(60).collect::<String>()).collect::<Vec<_>>().join(", "))));
                 r.push((s, Flow::Val(Val::opaque(format!("call {}", segs[0]), vs))));
                 continue;
             }
@@ -1486,7 +1505,22 @@ impl<'a> Ev<'a> {
     /// a symbolic collection (or `enumerate` of one): (collection path, element value)
     fn sym_iter(&self, it: &Val) -> Option<(String, Val)> {
         match it {
-            Val::Sym { ty, path } => Some((path.clone(), Val::Sym { ty: ty.arg0(), path: format!("{path}[*]") })),
+            Val::Sym { ty, path } => {
+                if let (Some(n), Some(sd)) = (self.inner_unroll, ty.arg0().name().and_then(|s| self.ix.structs.get(s))) {
+                    if sd.fields.iter().any(|(_, t)| crate::index::ty_str(t).starts_with("Vec<")) {
+                        let ep = format!("{path}[*]");
+                        let mut fields = Vec::new();
+                        for (fname, fty) in &sd.fields {
+                            let fpath = format!("{ep}.{fname}");
+                            let t = Ty::from_syn(fty);
+                            let v = if t.name() == Some("Vec") { Val::Array((1..=n).map(|k| Val::Sym { ty: t.arg0(), path: format!("{fpath}[#{k}]") }).collect()) } else { Val::Sym { ty: t, path: fpath } };
+                            fields.push((fname.clone(), v));
+                        }
+                        return Some((path.clone(), Val::Struct { name: sd.name.clone(), fields }));
+                    }
+                }
+                Some((path.clone(), Val::Sym { ty: ty.arg0(), path: format!("{path}[*]") }))
+            }
             Val::Opaque { what, deps } if what == "enumerate" => {
                 if let Some(Val::Sym { ty, path }) = deps.first() {
                     let idx = Val::Sym { ty: Ty::Named("usize".into(), vec![]), path: format!("{path}[*]#index") };
@@ -1659,6 +1693,9 @@ impl<'a> Ev<'a> {
                 return r;
             }
             _ => {
+                if matches!(name, "insert" | "push" | "extend" | "retain" | "remove" | "push_str" | "clear" | "truncate" | "pop" | "sort" | "dedup" | "reverse") || name.starts_with("visit_") {
+                    st.events.push(Event::Note(format!("mutcall {}.{name}({})", rv.short().chars().take(80).collect::<String>(), args.iter().map(|a| a.short().chars().take(80).collect::<String>()).collect::<Vec<_>>().join(", "))));
+                }
                 let mut deps = vec![rv.clone()];
                 deps.extend(args);
                 Val::opaque(format!(".{name}"), deps)
